@@ -429,6 +429,9 @@ def events_of(raw):
             evs.pop()       # opened without truncation and closed again without a write (HDF5 probing an
             continue        # existing file before it re-opens it with O_TRUNC): no effect on the file
         evs.append((i, ev))
+    if evs and evs[-1][1]['op'] == 'open' and not evs[-1][1]['trunc']:
+        evs.pop()           # the same probing open, the process was killed before it closed the descriptor again:
+                            # nothing was written through it, the file is unchanged (the projection confirms that)
     return evs
 
 
